@@ -1,10 +1,18 @@
 (* C01 - Generated moves are exactly the legal moves of chess.
-   The FULL statement (C01_movegen_exact_statement) is NOT proved; it is decided on every generated
-   position by the correspondence (implementation = model) and the spec monitor (implementation =
-   Rules.legal_moves). Proved and pinned here: asking about a single move = membership in the generated
-   list, and the closed instance on the standard position. *)
+   PROVED IN FULL for the model: for every reachable board - the standard position, every board the FEN parser
+   accepts, every board the incremental builder returns, and every board obtained from one of these by moves the
+   checked operations accept, with no bound on the length of the game - what board.legals() yields (the iterator
+   drained) is, each move exactly once, the set of moves legal under the rules of chess (spec/Rules.v: pseudo-legal
+   moves of the mailbox position filtered by "own king not attacked after the move", castling through unattacked
+   empty squares, en passant, the four promotion pieces), and asking about a single move gives the same answer.
+   The proof goes through the invariant Good (placement partition, from-scratch hash, rights backed by king and
+   rook at home, well-formed e.p. marker, one king each, cached pins/checkers = the from-scratch ones, side not to
+   move not in check), shown to hold of every reachable board (Reachable_Good) and to make the generator exact
+   (movegen_exact_good: pins and check masks, king steps with the king lifted, castling, en passant incl. the
+   double-check case).  The model is tied to /repo by the correspondence run of ./check C01. *)
 From Coq Require Import NArith List Bool.
-From Chess Require Import base.Bits base.Types model.Board model.MoveGen spec.Rules proofs.CoreFacts.
+From Chess Require Import base.Bits base.Types model.Board model.MoveGen model.Apply model.Fen spec.Rules proofs.CoreFacts
+  proofs.InvFacts proofs.LegalDefs proofs.BuilderFacts proofs.Reachable proofs.ReachableMore.
 Local Open Scope N_scope.
 
 Theorem C01_is_legal_agrees : forall b m, is_legal b m = true <-> In m (legals b).
@@ -16,10 +24,41 @@ Theorem C01_standard_instance :
 Proof. exact standard_20_moves. Qed.
 Print Assumptions C01_standard_instance.
 
-(* kept visible: what remains to be proved *)
+(* what "reachable" means (the statement kept open in earlier rounds, now with its witness) *)
 Definition Reach_statement (Reach : board -> Prop) : Prop :=
   Reach standard /\ (forall s b, Fen.parse_fen s = Some b -> Reach b)
   /\ (forall b m, Reach b -> In m (legals b) -> Reach (Apply.apply b m)).
 Definition C01_movegen_exact_statement (Reach : board -> Prop) : Prop :=
   forall b, Reach b ->
     NoDup (legals b) /\ (forall m, In m (legals b) <-> In m (legal_moves (abs b))).
+
+Theorem C01_reachable_closed : Reach_statement Reachable.
+Proof. exact reachable_closure. Qed.
+Print Assumptions C01_reachable_closed.
+
+Theorem C01_built_boards_reachable : forall ops b, Forall bop_wf ops -> build (builder_state ops) = inl b -> Reachable b.
+Proof. exact RB_build. Qed.
+Print Assumptions C01_built_boards_reachable.
+
+(* THE property: exactly the legal moves, each exactly once *)
+Theorem C01_movegen_exact : C01_movegen_exact_statement Reachable.
+Proof. exact movegen_exact_reachable. Qed.
+Print Assumptions C01_movegen_exact.
+
+(* asking whether a single given move is legal gives the same answer *)
+Theorem C01_is_legal_exact : forall b m, Reachable b -> (is_legal b m = true <-> In m (legal_moves (abs b))).
+Proof. exact is_legal_exact_reachable. Qed.
+Print Assumptions C01_is_legal_exact.
+
+Theorem C01_is_legal_is_rules_is_legal : forall b m, Reachable b -> is_legal b m = is_legal_move (abs b) m.
+Proof. exact is_legal_rules_reachable. Qed.
+Print Assumptions C01_is_legal_is_rules_is_legal.
+
+(* the same on every board satisfying the invariant, and the invariant on every reachable board *)
+Theorem C01_exact_on_good_boards : forall b m, Good b -> (gen_move b m <-> In m (legal_moves (abs b))).
+Proof. exact movegen_exact_good. Qed.
+Print Assumptions C01_exact_on_good_boards.
+
+Theorem C01_reachable_good : forall b, Reachable b -> Good b.
+Proof. exact Reachable_Good. Qed.
+Print Assumptions C01_reachable_good.
